@@ -588,7 +588,36 @@ func RuleG7(c *Ctx) {
 	}
 	wgCell, _ = adds[0].Call.Args[0].(*ssa.Alloc)
 	facts++
-	c.Check(wgCell != nil && waits[0].Call.Args[0] == ssa.Value(wgCell) && core.PostDominatesEntry(fn, waits[0]) && !cl.loop.Blocks[waits[0].Block()], "G7", "Execute:Wait-postdominates", waits[0].Pos(), "wg.Wait() on the same WaitGroup does not lie on every path from entry to return (Execute may return before all invocations finished)", "Wait after the loop on every path to return")
+	// every return lies behind the Wait, except a return taken before anything was started and only for an empty
+	// input (nbIterations <= 0 on the edge that leads to it)
+	waitOK := wgCell != nil && waits[0].Call.Args[0] == ssa.Value(wgCell) && !cl.loop.Blocks[waits[0].Block()]
+	waitDesc := "Wait after the loop on every path to return"
+	if waitOK {
+		wcut := core.NewCuts()
+		wcut.AddInstr(waits[0])
+		for _, r := range core.Returns(fn) {
+			if core.MustPass(fn, wcut, r) {
+				continue
+			}
+			early := emptyInputOnly(fn, r.Block())
+			for _, g := range gos {
+				if core.ReachableAvoiding(fn, g, wcut, r) {
+					early = false
+				}
+			}
+			for _, a := range adds {
+				if core.ReachableAvoiding(fn, a, wcut, r) {
+					early = false
+				}
+			}
+			if !early {
+				waitOK = false
+			} else {
+				waitDesc += "; an early return at " + c.P.Pos(r.Pos()) + " is taken only for nbIterations <= 0, before anything is started"
+			}
+		}
+	}
+	c.Check(waitOK, "G7", "Execute:Wait-postdominates", waits[0].Pos(), "wg.Wait() on the same WaitGroup does not lie on every path from entry to return (Execute may return before all invocations finished, or without doing the work of a non-empty input)", waitDesc)
 
 	for gi, g := range gos {
 		sfx := ""
@@ -1349,3 +1378,72 @@ func isContainer(v ssa.Value) bool {
 }
 
 var _ = strings.Contains
+
+// emptyInputOnly: block b is dominated by the arm of a comparison of Execute's iteration count with a constant that
+// implies nbIterations <= 0.
+func emptyInputOnly(fn *ssa.Function, b *ssa.BasicBlock) bool {
+	var n ssa.Value
+	for _, p := range fn.Params {
+		if p.Name() == "nbIterations" {
+			n = p
+		}
+	}
+	if n == nil && len(fn.Params) > 0 {
+		n = fn.Params[0]
+	}
+	if n == nil {
+		return false
+	}
+	for _, t := range fn.Blocks {
+		ifi, ok := t.Instrs[len(t.Instrs)-1].(*ssa.If)
+		if !ok || t.Succs[0] == t.Succs[1] {
+			continue
+		}
+		cmp, ok := ifi.Cond.(*ssa.BinOp)
+		if !ok {
+			continue
+		}
+		for si, succ := range t.Succs {
+			if len(succ.Preds) != 1 || !succ.Dominates(b) {
+				continue
+			}
+			op := cmp.Op
+			var k int64
+			switch {
+			case core.StripConv(cmp.X) == n:
+				kk, isK := core.ConstInt(cmp.Y)
+				if !isK {
+					continue
+				}
+				k = kk
+			case core.StripConv(cmp.Y) == n:
+				kk, isK := core.ConstInt(cmp.X)
+				if !isK {
+					continue
+				}
+				k = kk
+				switch op {
+				case token.LSS:
+					op = token.GTR
+				case token.LEQ:
+					op = token.GEQ
+				case token.GTR:
+					op = token.LSS
+				case token.GEQ:
+					op = token.LEQ
+				}
+			default:
+				continue
+			}
+			if si == 1 {
+				op = negateCmp(op)
+			}
+			// n op k implies n <= 0
+			switch {
+			case op == token.LSS && k <= 1, op == token.LEQ && k <= 0, op == token.EQL && k <= 0:
+				return true
+			}
+		}
+	}
+	return false
+}
